@@ -61,6 +61,7 @@ func cmdVerify(args []string) {
 	dump := fs.String("dump", "", "directory to dump failing queries")
 	timeout := fs.Int("timeout", 20, "per-query timeout (s)")
 	verbose := fs.Bool("v", false, "list every obligation")
+	explain := fs.Bool("explain", false, "for failing conjunctive goals, report which conjuncts fail")
 	fs.Parse(args)
 	start := time.Now()
 	w, err := LoadWorld(*repo, *verif, strings.Split(*pkgs, ","))
@@ -74,6 +75,9 @@ func cmdVerify(args []string) {
 	for _, fc := range w.Contracts.Order {
 		if *prop != "" && !fc.HasProp(*prop) {
 			continue
+		}
+		if len(fc.Props) == 0 {
+			continue // helper contracts (inline markers, interface assumptions) are not checked on their own
 		}
 		if *only != "" && !strings.Contains(fc.Key(), *only) {
 			continue
@@ -118,6 +122,20 @@ func cmdVerify(args []string) {
 				sort.Strings(ks)
 				for _, k := range ks {
 					fmt.Printf("             %s = %s\n", k, m[k])
+				}
+				if *explain && ob.script != nil {
+					for i, part := range splitGoal(ob.Goal) {
+						sub := *ob
+						sub.Goal = part
+						r := Solve(sub.Query(), *timeout, false)
+						if r.Status != "unsat" {
+							txt := part.S
+							if len(txt) > 300 {
+								txt = txt[:300]
+							}
+							fmt.Printf("             conjunct %d: %s: %s\n", i, r.Status, txt)
+						}
+					}
 				}
 				if *dump != "" {
 					os.MkdirAll(*dump, 0o755)
